@@ -110,10 +110,11 @@ AInit(g) ==
 AMountPre(idx) == idx \in 1..N-1 /\ ~Occupied(idx)
 \* a failure is allowed only for: a path that is not absolute, a backend that refused, no index left
 AMountFailPre(abs, backend_ok) == ~abs \/ ~backend_ok \/ Full
+\* (the singleton quantifiers make TLC evaluate r and old once instead of once per array element)
 AMountEff(comps, b, m, rt, idx) ==
-  LET r == MkT(pn, nextino, RootNode, comps)
-      old == IF r.node \in DOMAIN mp THEN mp[r.node] ELSE 0      \* over-mount: the previous mount loses its index
-  IN /\ pn' = r.t /\ nextino' = r.next
+  \E r \in {MkT(pn, nextino, RootNode, comps)} :
+  \E old \in {IF r.node \in DOMAIN mp THEN mp[r.node] ELSE 0} :     \* over-mount: the previous mount loses its index
+     /\ pn' = r.t /\ nextino' = r.next
      /\ slot' = [i \in 0..N-1 |-> IF i = idx THEN b ELSE IF i = old /\ old # 0 THEN Vacant ELSE slot[i]]
      /\ mroot' = [i \in 0..N-1 |-> IF i = idx THEN rt ELSE IF i = old /\ old # 0 THEN NoRoot ELSE mroot[i]]
      /\ given' = [i \in 0..N-1 |-> IF i = idx THEN Canon(m) ELSE IF i = old /\ old # 0 THEN NoMap ELSE given[i]]
@@ -124,7 +125,7 @@ AMountEff(comps, b, m, rt, idx) ==
 (* umount(path) *)
 AUmountPre(abs, comps) == abs /\ Walk(comps) # 0 /\ IsMp(Walk(comps))
 AUmountEff(comps) ==
-  LET node == Walk(comps) idx == mp[node] IN
+  \E node \in {Walk(comps)} : \E idx \in {mp[node]} :
   /\ slot' = [slot EXCEPT ![idx] = Vacant] /\ mroot' = [mroot EXCEPT ![idx] = NoRoot]
   /\ given' = [given EXCEPT ![idx] = NoMap]
   /\ mp' = [n \in DOMAIN mp \ {node} |-> mp[n]]
